@@ -3,6 +3,7 @@ package main
 import (
 	"fmt"
 	"io"
+	"strings"
 	"time"
 
 	tally "github.com/uber-go/tally/v4"
@@ -46,6 +47,43 @@ func c04Case(c *mon.Ctx, r *mon.Rand) {
 	if collides(ids) {
 		c.Class("skipped-delimiter-collision(D4)", 1)
 		return
+	}
+	// half of the cases: a sibling chain with a slightly different identity (one
+	// value or key changed, a level added, ...) is derived from the same root
+	// FIRST, so that a lookup that confuses the two would hand the main chain the
+	// sibling's scope
+	var decoy dprog
+	var decoyFinal ident
+	if r.Bool() {
+		d := mutateProg(r, prog, pool)
+		dids, damb := rc.trace(d)
+		// the registry also looks scopes up by the raw (unsanitized) spelling: the
+		// known delimiter ambiguity (KF-C05-delim) must be excluded at that level too
+		rawRC := rc
+		rawRC.San = nil
+		rawIDs, _ := rawRC.trace(prog)
+		rawDIDs, _ := rawRC.trace(d)
+		hasDelim := func(p dprog) bool {
+			for _, st := range p {
+				if strings.ContainsAny(st.Sub, ",=+") {
+					return true
+				}
+				for k, v := range st.Tags {
+					if strings.ContainsAny(k, ",=+") || strings.ContainsAny(v, ",=+") {
+						return true
+					}
+				}
+			}
+			return false
+		}
+		// (the registry's raw key mixes the sanitized parent with the raw new tags,
+		// so under a sanitizer any delimiter character in the raw strings of the
+		// two chains may make them collide there: such pairs are left out)
+		if !damb && !collides(append(append([]ident{}, ids...), dids...)) && !collides(append(append([]ident{}, rawIDs...), rawDIDs...)) &&
+			!(withSan && (hasDelim(prog) || hasDelim(d) || strings.ContainsAny(rc.Prefix, ",=+"))) {
+			decoy, decoyFinal = d, dids[len(dids)-1]
+			c.Class("cases-with-a-sibling-chain-derived-first", 1)
+		}
 	}
 	metric := pool.names[r.Intn(len(pool.names))]
 	metric2 := pool.names[r.Intn(len(pool.names))] + "2"
@@ -127,8 +165,13 @@ func c04Case(c *mon.Ctx, r *mon.Rand) {
 		if panicked || root == nil {
 			continue
 		}
-		var scopes []tally.Scope
-		if c.Guard("panic/"+kind, func() interface{} { return desc }, func() { scopes = progArg.apply(root) }) {
+		var scopes, decoyScopes []tally.Scope
+		if c.Guard("panic/"+kind, func() interface{} { return desc }, func() {
+			if decoy != nil {
+				decoyScopes = decoy.clone().apply(root)
+			}
+			scopes = progArg.apply(root)
+		}) {
 			continue
 		}
 		checkArgs("after derivation")
@@ -146,6 +189,9 @@ func c04Case(c *mon.Ctx, r *mon.Rand) {
 		if c.Guard("panic/"+kind, func() interface{} { return desc }, func() {
 			use(fin, final, metric, 1)
 			use(root, rootID, metric, 1)
+			if decoyScopes != nil {
+				use(decoyScopes[len(decoyScopes)-1], decoyFinal, metric, 5)
+			}
 			if ts == nil {
 				tally.VerifReportPass(root)
 			}
@@ -259,7 +305,7 @@ func c04Case(c *mon.Ctx, r *mon.Rand) {
 						}
 					}
 					if !dupOK {
-						bad("missing-delivery", fmt.Sprintf("no %s seen under name=%q tags=%v", k, e.name, e.tags))
+						bad("missing-delivery", fmt.Sprintf("no %s seen under name=%q tags=%v; sibling chain derived first: %v; observed: %v", k, e.name, e.tags, decoy, seen))
 					}
 				}
 			}
